@@ -8,7 +8,7 @@
 From Coq Require Import String.
 From Emmet Require Import lib.Base lib.StyleLib gen.GenCssSnippets model.CssTokenizer model.CssParser
      model.Score model.Color model.CssSnippets model.CssResolve model.CssFormat run.StyleShow
-     proofs.StyleSweep proofs.StyleMatchProofs.
+     proofs.StyleSweep proofs.StyleMatchProofs proofs.StyleReachProofs.
 Local Open Scope N_scope.
 
 (* ---- every key of the built-in table reaches its own snippet.
@@ -116,6 +116,35 @@ Theorem C06_user_overrides :
 Proof. exact user_overrides. Qed.
 Print Assumptions C06_user_overrides.
 
+(* ---- "reachable under a new key", for ALL tables (user tables included): a property snippet stored under a name
+   (letters only: [name_ok]) that is distinct from the other keys up to letter case is reached by typing that name --
+   expand prints the snippet's own line.  First on a converted table, then from the raw table config.snippets
+   (create_snippet + nest); with C06_user_overrides this is the user-snippet clause for property snippets.
+   (Raw user snippets: their body goes through the tabstop regex of resolve_as_snippet; covered by the sweep for the
+   built-in table and by the harness for user tables, not by a for-all-tables theorem.) *)
+Theorem C06_key_reaches_property_snippet :
+  forall cfg sn key prop value kws deps,
+    name_ok key -> str_eqb key gradient_name = false ->
+    c_context cfg = None -> c_json cfg = false ->
+    In (SnProp key prop value kws deps) sn ->
+    (forall x, In x sn -> lower (sn_key x) = lower key -> x = SnProp key prop value kws deps) ->
+    expand_with cfg sn key = Ok (own_line cfg (SnProp key prop value kws deps)).
+Proof. exact key_reaches_property_snippet. Qed.
+Print Assumptions C06_key_reaches_property_snippet.
+
+Theorem C06_raw_key_reaches_property_snippet :
+  forall cfg raw sn key v prop parsed kws,
+    convert_snippets raw = Ok sn ->
+    NoDup (map (fun kv => lower (fst kv)) raw) ->
+    In (key, v) raw ->
+    create_snippet key v = Ok (SnProp key prop parsed kws []) ->
+    name_ok key -> str_eqb key gradient_name = false ->
+    c_context cfg = None -> c_json cfg = false ->
+    exists deps, In (SnProp key prop parsed kws deps) sn /\
+                 expand_with cfg sn key = Ok (own_line cfg (SnProp key prop parsed kws deps)).
+Proof. exact raw_key_reaches_property_snippet. Qed.
+Print Assumptions C06_raw_key_reaches_property_snippet.
+
 (* ---- scope filter: @@section only raw snippets, @@property only property snippets, and the matcher
    only returns members of the list it is given *)
 Theorem C06_scope_section :
@@ -145,3 +174,20 @@ Example C06_nonvacuous :
   calculate_score (lit "annii") (lit "animfm") true = f_one /\
   find_best_match (fun x : str => x) (lit "annii") [lit "animfm"; lit "ANNII"] f_zero true = Some (lit "ANNII").
 Proof. vm_compute. repeat split; try reflexivity; repeat constructor. Qed.
+
+(* the for-all-tables theorem applies to the known score-1.0 collision: a table holding both `abcd` and `acddd`
+   (calculate_score "acddd" "abcd" true = 1.0) satisfies its hypotheses for the key `acddd` *)
+Example C06_new_key_nonvacuous :
+  let raw := [(lit "abcd", lit "foo-bar:baz"); (lit "acddd", lit "x-y:z|w")] in
+  calculate_score (lit "acddd") (lit "abcd") true = f_one /\
+  exists sn prop parsed kws,
+    convert_snippets raw = Ok sn /\
+    create_snippet (lit "acddd") (lit "x-y:z|w") = Ok (SnProp (lit "acddd") prop parsed kws []) /\
+    name_ok (lit "acddd") /\ NoDup (map (fun kv => lower (fst kv)) raw) /\ In (lit "acddd", lit "x-y:z|w") raw.
+Proof.
+  cbv zeta. split; [vm_compute; reflexivity|].
+  do 4 eexists. split; [vm_compute; reflexivity|]. split; [vm_compute; reflexivity|].
+  split; [split; [discriminate|repeat constructor]|]. split.
+  - vm_compute. constructor; [intros [H|[]]; discriminate|]. constructor; [intros []|constructor].
+  - right. left. reflexivity.
+Qed.
